@@ -20,8 +20,9 @@ TEXTS = [
     "it's", 'say "hi"', "it's a \"quoted\" word", "''\"", "'\"\"", "o\\'neil said \"no\"", 'back\\slash and \\" pair', "both ' and \" and \\",
     "customer's final \"offer\" isn't it's", 'multi\nline\ntext', 'tab\tand\rcr', 'zero​width  sep', 'snow☃man \U0001f600 face', '\x00\x01nul',
     'ends with backslash\\', '"', "'", "\\", '  ', "a'b" * 3, 'q"q' * 3,
+    "'tis Pat's dog's 5\" lead", "the 'a' and the 'b' and 'c' in \"abc\"",
 ]
-BYTES = [b'bytes and more', b'nospacesatallhere', b'https://www.example.com/a&&b', b"it's \"q\"", b'\x00\x00\xff\xfe high', b'-----', b'', b'x', b"'\"", b'back\\slash \\" q',
+BYTES = [b"'x' 'y' 'z' \"w\" and some more bytes", b'bytes and more', b'nospacesatallhere', b'https://www.example.com/a&&b', b"it's \"q\"", b'\x00\x00\xff\xfe high', b'-----', b'', b'x', b"'\"", b'back\\slash \\" q',
          b'caf\xc3\xa9 au lait', b'a\nb\tc']
 WIDTHS = [1, 2, 3, 5, 8, 13]
 
@@ -146,4 +147,62 @@ def run(repo, rep, rules=None):
         n += 1
         rep.undecided(rules.get('pieces', 'C02.b'), 'string-model-interpretable', where, u)
     rep.count(sum(v[0] for v in stats.values()))
+    return n
+
+
+def one_line_when_it_fits(repo, rep, rule):
+    """C06 for strings: the layout-time evaluator of the string printer returns the single-line literal whenever the page and the
+    ribbon are at least as wide as that literal (interpreted on the corpus; the width handed in is exactly the literal's width)"""
+    from . import docmodel as DM
+    w = DM.World(repo)
+    m = repo.module('prettyprinter')
+    ps = m.funcs.get('pretty_str')
+    if ps is None:
+        raise AnalysisError('pretty_str vanished')
+    w.it.concrete_classes |= {'PrettyContext'}
+    w.it.eager_generators = {f.name for f in m.funcs.values()} | {f.name for f in repo.module('utils').funcs.values()}
+    ok, bad, und = 0, [], []
+    from engine.interp import TypeV, ObjV, FuncV
+    for s in [x for x in TEXTS + BYTES if x]:
+        try:
+            ctx = w.it.construct(TypeV('PrettyContext'), [], {'indent': Const(4), 'depth_left': Const(5)}, None)
+            flat = w.call(m, 'pretty_single_line_str', [Const(s), Const(4)])
+            flat_texts = DM.denote_fill(w.term_of(flat))
+            if len(flat_texts) != 1:
+                raise Undecided('single-line literal has %d layouts' % len(flat_texts))
+            ftext = next(iter(flat_texts))
+            L = len(ftext)
+            doc = w.call(m, 'pretty_str', [Const(s), ctx])
+            fn = w.it.getattr(doc, 'fn', None) if isinstance(doc, ObjV) else None
+            if not isinstance(fn, FuncV):
+                raise Undecided('pretty_str does not return a contextual document (%s)' % prov(doc))
+            # at column 0, and as the sole element of a list (one column in, inside the list's nest) on a page that is exactly as wide as
+            # the one-line form of the whole list
+            for indent_, column_, page_ in ((0, 0, L), (0, 0, L + 3), (4, 1, L + 2), (2, 1, L + 2)):
+                extra = page_ - L
+                w.it.paths_run = 0
+                prs = w.it.explore(fn.fn, [Const(indent_), Const(column_), Const(page_), Const(page_)], {}, closure=fn.env)
+                if len(prs) != 1 or prs[0].raised is not None:
+                    raise Undecided('the evaluator forks / raises (%s)' % (prs[0].raised.what if prs and prs[0].raised else len(prs)))
+                texts = DM.denote_fill(w.term_of(prs[0].value))
+                if texts == {ftext}:
+                    ok += 1
+                else:
+                    bad.append('%r: its single-line literal %s is %d columns wide, but at column %d (indentation %d) of a page and ribbon %d columns wide '
+                               'the evaluator returns %s' % (s, ftext, L, column_, indent_, page_, sorted(texts)[:1]))
+        except Raised as e:
+            bad.append('%r: raises %s' % (s, e.what))
+        except (Undecided, PathLimit) as e:
+            if len(und) < 4:
+                und.append('%s (value %r)' % (e, s))
+    n = 1
+    if bad:
+        for i, d in enumerate(bad[:4]):
+            rep.fail(rule, 'string-one-line-when-it-fits' if i == 0 else 'string-one-line-when-it-fits#%d' % (i + 1), ps.where, d)
+    else:
+        rep.check(ok >= 40 or bool(und), rule, 'string-one-line-when-it-fits', ps.where, 'held on %d interpreted evaluations' % ok,
+                  'only %d evaluations could be compared' % ok, nontrivial=True)
+    for u in und:
+        n += 1
+        rep.undecided(rule, 'string-evaluator-interpretable', ps.where, u)
     return n
